@@ -247,30 +247,69 @@ def _message_class(ctx, R, T):
     R.ok("WMC-msg", cls.qualname + "|immutable", "no store to message fields outside the constructor", cls.mod.relpath)
 
 
+def isinstance_knowledge(ctx, f, node, target_key):
+    """What the must-facts at `node` say about isinstance(<target>, T): -> (list of type-name sets known to hold, set of
+    type names known not to hold).  Every isinstance test of the function over the target is consulted (single type or tuple)."""
+    g = ctx.cfg(f)
+    df = ctx.df(f)
+    seen = {}
+    for n in g.nodes:
+        for e in n.exprs():
+            for x in ast.walk(e):
+                if isinstance(x, ast.Call) and isinstance(x.func, ast.Name) and x.func.id == "isinstance" and len(x.args) == 2 and key(x.args[0]) == target_key:
+                    ty = x.args[1]
+                    names = [t for t in (ty.elts if isinstance(ty, ast.Tuple) else [ty])]
+                    if all(isinstance(t, ast.Name) for t in names):
+                        seen[key(x)] = (x, frozenset(t.id for t in names))
+    yes, no = [], set()
+    for x, types in seen.values():
+        if df.holds(node, x, True):
+            yes.append(types)
+        if df.holds(node, x, False):
+            no |= types
+    return yes, no
+
+
 def _checksum_branches(ctx, R, T, ck):
+    """Every return of checksum(): the byte sum mod 2^32; the ord() sum only where the argument is known not to be a
+    (Python 3) bytes/bytearray - i.e. under `not isinstance(data, bytes/bytearray)` or the Python 2 test `isinstance(data[0], bytes)`."""
     g = ctx.cfg(ck)
     df = ctx.df(ck)
     data = ck.params[0]
+    dk = key(ast.Name(id=data, ctx=ast.Load()))
+    d0 = key(ast.Subscript(value=ast.Name(id=data, ctx=ast.Load()), slice=ast.Constant(value=0), ctx=ast.Load()))
     rets = [n for n in g.live_nodes() if n.kind == "stmt" and isinstance(n.ast, ast.Return)]
+    good = ("MOD32", ("BYTESUM", ("p", data)))
+    legacy = ("MOD32", ("ORDSUM", ("p", data)))
+    n_good = 0
     for rn in rets:
         t = T.term(ck, rn, rn.ast.value)
         alts = set(t[1]) if t[0] == "phi" else {t}
-        good = ("MOD32", ("BYTESUM", ("p", data)))
-        legacy = ("MOD32", ("ORDSUM", ("p", data)))
-        R.check(good in alts and alts <= {good, legacy}, "TERM-checksum", ck.qualname + "|" + norm_stmt(rn.ast),
-                "checksum = byte sum mod 2^32", "checksum() returns %s, expected MOD32(BYTESUM(data))" % show(t), ck.loc(rn.ast))
-    # the definition reaching under isinstance(data, bytearray) / isinstance(data, bytes) must be the byte sum
-    for n in g.nodes:
-        if n.kind == "stmt" and isinstance(n.ast, ast.Assign):
-            facts = df.facts(n)
-            for kind in ("bytearray", "bytes"):
-                isk = ("truthy", key(ast.Call(func=ast.Name(id="isinstance", ctx=ast.Load()), args=[ast.Name(id=data, ctx=ast.Load()), ast.Name(id=kind, ctx=ast.Load())], keywords=[])))
-                under = any(f[0] == isk and f[1] is True for f in facts)
-                py2 = any(f[0][0] == "truthy" and "isinstance" in f[0][1] and "Subscript" in f[0][1] and f[1] is True for f in facts)
-                if under and not py2:
-                    t = T.term(ck, n, n.ast.value)
-                    R.check(t == ("BYTESUM", ("p", data)), "TERM-checksum", "%s|branch:%s" % (ck.qualname, kind),
-                            "the %s branch sums the bytes" % kind, "the %s branch computes %s, not the byte sum" % (kind, show(t)), ck.loc(n.ast))
+        yes, no = isinstance_knowledge(ctx, ck, rn, dk)
+        py2 = any("bytes" in s or "str" in s for s in isinstance_knowledge(ctx, ck, rn, d0)[0])
+        not_bytes_like = {"bytes", "bytearray"} <= no
+        bytes_like = any(s <= {"bytes", "bytearray"} for s in yes)
+        sub = ck.qualname + "|" + norm_stmt(rn.ast) + ("|bytes-like" if bytes_like else "|other" if (not_bytes_like or py2) else "")
+        if len(alts) == 1:
+            ok = t == good or (t == legacy and (not_bytes_like or py2))
+            n_good += 1 if t == good else 0
+            R.check(ok, "TERM-checksum", sub, "checksum = byte sum mod 2^32 (ord() sum only for non-bytes input)",
+                    "checksum() returns %s%s, expected MOD32(BYTESUM(data))" % (show(t), " for bytes/bytearray input" if bytes_like else ""), ck.loc(rn.ast))
+        else:
+            # merged definitions at one return: the alternatives must be the two sums, and each definition made under a
+            # bytes/bytearray fact must be the byte sum
+            n_good += 1 if good in alts else 0
+            R.check(good in alts and alts <= {good, legacy}, "TERM-checksum", sub, "checksum = byte sum mod 2^32",
+                    "checksum() returns %s, expected MOD32(BYTESUM(data))" % show(t), ck.loc(rn.ast))
+            for n in g.nodes:
+                if n.kind == "stmt" and isinstance(n.ast, ast.Assign):
+                    y2, n2 = isinstance_knowledge(ctx, ck, n, dk)
+                    p2 = any("bytes" in s for s in isinstance_knowledge(ctx, ck, n, d0)[0])
+                    if any(s <= {"bytes", "bytearray"} for s in y2) and not p2:
+                        tt = T.term(ck, n, n.ast.value)
+                        R.check(tt == ("BYTESUM", ("p", data)), "TERM-checksum", "%s|branch|%s" % (ck.qualname, norm_stmt(n.ast)),
+                                "the bytes/bytearray branch sums the bytes", "the bytes/bytearray branch computes %s, not the byte sum" % show(tt), ck.loc(n.ast))
+    R.check(n_good >= 1, "TERM-checksum", ck.qualname + "|some-byte-sum", "at least one return is the byte sum", "no return of checksum() is the byte sum", ck.loc())
 
 
 def _writers(ctx, R, roles):
